@@ -593,3 +593,67 @@ func init() {
 	register(&Scenario{Prop: "C09", Name: "c09/slow-connect-callback", Quick: []Bound{{0, 0}}, Thorough: []Bound{{1, 0}}, Body: c09SlowConnect, BudgetQ: 15, BudgetT: 100, MaxSteps: 200000, MinHB: 1})
 	register(&Scenario{Prop: "C09", Name: "c09/refused-opens-next-to-open-streams", Quick: []Bound{{0, 0}}, Thorough: []Bound{{1, 0}}, Body: c09RefusedOpens, BudgetQ: 15, BudgetT: 100, MinHB: 1})
 }
+
+// buffer sizes that are not size classes of the buffer pool (1000: the pooled buffer holds 1024;
+// 5000: 8192) and stream messages whose frames fall between the configured size and the pooled
+// capacity, piling up unread on either side: every message is delivered once, in order, intact.
+func c09OddBuffers(x *X) {
+	buf := []int{1000, 5000, 100}[x.Choose(3)]
+	base := map[int]int{1000: 960, 5000: 4960, 100: 70}[buf]
+	off := x.Choose(9) * 8 // message sizes base+off .. : frames around the configured size and up to the pooled capacity
+	dio := x.Choose(2) == 1
+	cliDio := x.Choose(2) == 1
+	so := srvOpts{bufSize: buf, directIO: dio}
+	f := newFixture(so, cliOpts{bufSize: buf, directIO: cliDio})
+	st, err := f.conn.NewStream("StreamSvc.Push")
+	if err != nil {
+		x.Fail("C09/open-failed/odd-buffers", "NewStream: %v", err)
+		return
+	}
+	var want [][]byte
+	f.w.streamHold = true
+	for i := 0; i < 4; i++ {
+		n := base + off + i
+		if i == 2 {
+			n = 12 // a short one between them
+		}
+		msg := mkPayload(0x31, byte(i), n)
+		for j := 2; j < len(msg); j++ {
+			msg[j] = byte(j*7+i*31) | 1
+		}
+		if e := st.WriteMessage(&msg); e != nil {
+			x.Fail("C09/write-failed/odd-buffers", "WriteMessage: %v", e)
+		}
+		want = append(want, transform(msg))
+		vs.Quiesce()
+	}
+	f.w.streamHold = false
+	vs.Quiesce()
+	var got [][]byte
+	for len(got) < len(want) {
+		var m []byte
+		ret := false
+		var e error
+		vs.GoNamed("reader", func() { e = st.ReadMessage(nil, &m); ret = true })
+		vs.Quiesce()
+		if !ret || e != nil {
+			x.Fail("C09/client-blocked/odd-buffers", "buffer size %d, messages of %d.. bytes: echo %d of %d: returned=%v err=%v", buf, base+off, len(got), len(want), ret, e)
+			break
+		}
+		got = append(got, append([]byte(nil), m...))
+	}
+	for i := range got {
+		if !eqBytes(got[i], want[i]) {
+			x.Fail("C09/client-sequence/odd-buffers", "server and client buffer size %d (not a size of the buffer pool), messages of %d, %d, 12, %d bytes written while the handler was busy: echo %d (%d bytes) is not the echo of message %d (first bytes %x, want %x)", buf, base+off, base+off+1, base+off+3, i, len(got[i]), i, clipBytes(got[i], 8), clipBytes(want[i], 8))
+			break
+		}
+	}
+	x.Outcome("buf=%d off=%d dio=%v/%v got=%d", buf, off, dio, cliDio, len(got))
+	st.Close()
+	f.conn.Close()
+	vs.Quiesce()
+}
+
+func init() {
+	register(&Scenario{Prop: "C09", Name: "c09/odd-buffer-sizes", Quick: []Bound{{0, 0}}, Thorough: []Bound{{1, 0}}, Body: c09OddBuffers, BudgetQ: 20, BudgetT: 200, MaxSteps: 400000, MinHB: 1})
+}
